@@ -442,13 +442,17 @@ pub fn run_property(subs: &[Sub], prop: &str, tier: &str, seed: u64, root: &Path
         eprintln!("no sub-checks registered for {}", prop);
         return 2
     }
+    // exit 3: this binary does not know the named sub-check (the driver then asks the other parts of a composite property)
+    if let Some(o) = only { if !subs.iter().any(|s| s.prop == prop && s.name == o) { eprintln!("no sub-check `{}` for {} in this binary", o, prop); return 3 } }
     if let Some(file) = replay {
         let v: Value = match std::fs::read_to_string(file).ok().and_then(|s| serde_json::from_str(&s).ok()) {
             Some(v) => v, None => { eprintln!("cannot read replay file {}", file); return 2 }
         };
+        if let Some(name) = v["sub"].as_str() { if !subs.iter().any(|s| s.prop == prop && s.name == name) { eprintln!("no sub-check `{}` for {} in this binary", name, prop); return 3 } }
+        let report_as = std::env::var("VERIF_REPORT_AS").unwrap_or_else(|_| prop.to_string());
         return match replay_one(subs, prop, known, &v) {
             Ok(Ok(())) => { println!("replay {}: property holds on this case", file); 0 }
-            Ok(Err(fl)) => { println!("replay {}: [{}] {}", file, fl.sig, fl.detail); println!("VIOLATION property={} replay={}", prop, file); 1 }
+            Ok(Err(fl)) => { println!("replay {}: [{}] {}", file, fl.sig, fl.detail); println!("VIOLATION property={} replay={}", report_as, file); 1 }
             Err(e) => { eprintln!("replay error: {}", e); 2 }
         }
     }
@@ -463,11 +467,15 @@ pub fn run_property(subs: &[Sub], prop: &str, tier: &str, seed: u64, root: &Path
     // 1. regression cases (shrunk failures promoted earlier), bypassing the generators
     let mut regress_n = 0u64;
     if only.is_none() {
-        if let Ok(rd) = std::fs::read_dir(input_root().join("regress").join(prop)) {
+        // (a part of a composite property finds its promoted cases in the directory of the property it reports as)
+        let regress_dir = std::env::var("VERIF_REPORT_AS").unwrap_or_else(|_| prop.to_string());
+        if let Ok(rd) = std::fs::read_dir(input_root().join("regress").join(regress_dir)) {
             let mut files: Vec<PathBuf> = rd.filter_map(|e| e.ok().map(|e| e.path())).filter(|p| p.extension().map(|e| e == "json").unwrap_or(false)).collect();
             files.sort();
             for p in files {
                 let v: Value = match std::fs::read_to_string(&p).ok().and_then(|s| serde_json::from_str(&s).ok()) { Some(v) => v, None => continue };
+                // cases of sub-checks that live in another binary of the same property are replayed there
+                if let Some(name) = v["sub"].as_str() { if !subs.iter().any(|s| s.prop == prop && s.name == name) { continue } }
                 regress_n += 1;
                 match replay_one(subs, prop, known, &v) {
                     Ok(Ok(())) => {}
